@@ -350,7 +350,7 @@ def run(ctx):
     if ctx.prop == "C02" and not getattr(ctx, "_sharing", False):
         from .common import share
         share(ctx, "C14", ("R14.2", "R14.3", "R14.5"), "R02.8", "reset obligations shared with C14 (emptied state, the reset pass runs on every parse, the parse path keeps nothing in the parser object)", 3)
-        share(ctx, "C12", ("R12.10", "R12.11"), "R02.8", "entry-point obligations shared with C12", 3)
+        share(ctx, "C12", ("R12.10", "R12.11", "R12.13"), "R02.8", "entry-point obligations shared with C12 (and the parser's settings travel with it when it is moved)", 3)
     ctx.assume("the round-trip equation itself, interleavings of items and as<T>() numeric conversion are not decided")
 
 
